@@ -2,6 +2,7 @@ import Proofs.Machine.HunkHeaders
 import Proofs.Machine.FileHeaders
 import Proofs.Machine.FileHeaders5
 import Proofs.Machine.MiscSource
+import Proofs.Machine.SubmoduleLogSource
 import Proofs.Headers.Paths
 import Proofs.Headers.HunkHeader
 /-!
@@ -567,6 +568,52 @@ example : (match run {} (linesOf2 [sCopiedBinaryChanged, sBinary, sRenamedBinary
     | .ok m => (m.out.filter (fun r => r.kind == .file)).map (fun r => (String.ofList r.text, r.src)) ==
         [("copied: a.bin ⟶   b.bin", 3), ("img.png (binary file)", 9), ("renamed: img/logo old.png ⟶   img/logo new.png", 12)] &&
       m.out.filter (fun r => r.kind == .file) == rowsOf2 {} 0 [sCopiedBinaryChanged, sBinary, sRenamedBinaryChanged]
+    | .error _ => false) = true := by decide
+
+-- the handler of `Submodule …` lines (diff.submodule=log), executed from its source --------------------------
+
+/-- **`submodule_log_handler_follows_source`**. `handle_submodule_log_line` as the Rust source has it — the statement
+list `Generated.SubmoduleLog.body` (the guard on `test_submodule_log`, `paint_buffered_minus_and_plus_lines()`,
+`handle_pending_line_with_diff_name()?`, the tail call `handle_additional_cases(State::SubmoduleLog)`, in source order)
+with the literal `testPrefix` of the test, regenerated by `tools/extractors/submodulelog.py` and run by the interpreter
+`SubmoduleLogSrc.exec` (DeltaModel/SubmoduleLogSrc.lean) — computes, for every configuration, every state and every line,
+exactly `Machine.handleSubmoduleLog`: the function the model driver executes and `one_file_header_per_section_any` is
+about. Dropping or moving the two calls that write the file header still owed to the section before the log (the repair
+of the defect "late header after / lost before a submodule log") changes the generated list and this theorem no longer
+builds. -/
+theorem submodule_log_handler_follows_source (cfg : Cfg) (m : M) (l : L) :
+    SubmoduleLogSrc.handleSubmoduleLogSrc cfg m l = some (handleSubmoduleLog cfg m l) :=
+  SubmoduleLogSrc.handleSubmoduleLogSrc_eq cfg m l
+
+/-- … and what the source does at a `Submodule …` line: buffered lines painted, the pending file header written (by
+`handle_pending_line_with_diff_name`, in the state the line is met in), then `handle_additional_cases` -/
+theorem submodule_log_line_writes_pending_header_first (cfg : Cfg) (m : M) (l : L)
+    (h : startsWith l.text Markers.submoduleLog = true) :
+    SubmoduleLogSrc.handleSubmoduleLogSrc cfg m l =
+      some (handleAdditionalCases cfg (pendingDiffName cfg (flushMP m)) l .submoduleLog) :=
+  SubmoduleLogSrc.submodule_log_line_writes_pending_header_first cfg m l h
+
+/-- the state in which the `Submodule …:` line of the repaired defect arrives (mode-only section: header owed), what the
+source makes of the line — two file rows, the owed header first — and what the function *without* the two calls (the
+list the extractor produced before the repair) made of it: one row, the mode change on the wrong header -/
+def modeOnlyHead : List L := ["diff --git a/run.sh b/run.sh", "old mode 100644", "new mode 100755"].map mkL
+def subLogLine : L := mkL "Submodule sub 1111111..2222222:"
+def fileTexts (r : Option (Except String (Bool × M))) : List String :=
+  match r with
+  | some (.ok (_, m)) => (m.out.filter (fun r => r.kind == .file)).map (fun r => String.ofList r.text)
+  | _ => []
+example : (match runFrom {} {} modeOnlyHead with
+    | .ok m =>
+      startsWith subLogLine.text Markers.submoduleLog && m.modeInfo == "mode +x".toList &&
+      fileTexts (SubmoduleLogSrc.handleSubmoduleLogSrc {} m subLogLine) ==
+        ["run.sh (mode +x)", "Submodule sub 1111111..2222222:"] &&
+      fileTexts (SubmoduleLogSrc.exec {} subLogLine
+          [.declineUnless "test_submodule_log", .tailAdditionalCases "SubmoduleLog"] m) ==
+        ["Submodule sub 1111111..2222222: (mode +x)"] &&
+      -- statements the interpreter has no meaning for give no result at all
+      (SubmoduleLogSrc.exec {} subLogLine [.declineUnless "test_submodule_log", .unknown "self.x();",
+          .tailAdditionalCases "SubmoduleLog"] m).isNone &&
+      (SubmoduleLogSrc.exec {} subLogLine [.declineUnless "test_submodule_log", .paintBuffered, .pendingDiffName] m).isNone
     | .error _ => false) = true := by decide
 
 end C14
